@@ -43,8 +43,9 @@ What is handed to the driver besides the parameters, and why (each is counted in
     echoes the client's numbers; the driver reads them off the frame with M14's own readers (glue, see the driver).
 Known deviations of COMPONENT models that only the wire can reach (a connection that meets one is not compared, nor
 is the rest of its history; counted as `excluded_known_model_gap:*`, described in `known_model_gaps`):
-  empty Unique Identifier in Activate / Revoke / Destroy / MAC; identifier spellings ("2.0", " 2": lib/uidcanon.py;
-  not generated here); an empty Operation Policy Name.
+  identifier spellings ("2.0", " 2": lib/uidcanon.py;
+  not generated here).  (An empty Operation Policy Name and an empty Unique Identifier in Activate / Revoke /
+  Destroy / MAC were gaps until round 11: `Obj.policyGiven` / `uidOrObj` model them now and they are compared.)
 `excluded_oracle_not_a_function`: two different frames of one connection decode to the same model `Request` but the
 backend answered them differently - no `World` (oracle : Request -> answers) expresses that; not compared.
 
@@ -323,19 +324,13 @@ class Server(impl_engine.ImplEngine):
 
 
 def known_model_gaps(request):
-    """inputs on which a COMPONENT model is known to deviate from the code (reported, not compared):
-    empty-uid: Activate / Revoke / Destroy / MAC test the truth value of the Unique Identifier OBJECT (always true;
-    engine.py l.2782, 2828, 2874, 3200), the engine model M5 (`uidOr`) that of its string: with an EMPTY identifier the
-    model falls back to the ID placeholder, the engine looks the empty identifier up (and finds nothing)"""
+    """inputs on which a COMPONENT model is known to deviate from the code (reported, not compared): identifier
+    spellings only (the empty identifier of Activate / Revoke / Destroy / MAC is modelled since `uidOrObj`)"""
     gaps = []
     for bi in request.batch_items:
         try:
             op = bi.operation.value
             p = bi.request_payload
-            if op in (enums.Operation.ACTIVATE, enums.Operation.REVOKE, enums.Operation.DESTROY, enums.Operation.MAC):
-                u = p.unique_identifier
-                if u is not None and u.value == "":
-                    gaps.append("empty-uid-activate-revoke-destroy-mac")
             # identifier spellings SQLite reads as an integer (lib/uidcanon.py): the engine model knows canonical ones only
             uids = []
             u = getattr(p, "unique_identifier", None)
@@ -858,10 +853,6 @@ def evaluate(ctx, hists, outs, cov, report=True):
                 bad_history = True
                 continue
             gaps = sorted(set(g for it in o["iterations"] if it["k"] == "handled" for c in it["calls"] for g in c["gaps"]))
-            if any(x.get("policy") == "" for x in o["after"]["objs"]):
-                # an EMPTY Operation Policy Name (only the wire can carry one): M5 uses "" for "not given" and stores
-                # the column default "default", the server stores ""
-                gaps.append("empty-operation-policy-name")
             if gaps:
                 for g in gaps:
                     tot["excluded_known_model_gap:" + g] += 1
